@@ -29,12 +29,17 @@ const c09Key = "6S-Ks2YYOW0xMvTzKSv6QD30gZeOi1c6Ydr-As5csWk="
 
 // c09World builds a transport over the chosen backend; reopen() returns a second transport over the same store.
 func c09World(backend string) (w *world.W, reopen func() *world.W, cleanup func()) {
+	return c09WorldL(backend, "")
+}
+
+// c09WorldL is c09World with a logger ("", "text", "json": enabled at debug level).
+func c09WorldL(backend, logger string) (w *world.W, reopen func() *world.W, cleanup func()) {
 	switch backend {
 	case "rec":
-		w = world.New(world.Opt{})
+		w = world.New(world.Opt{Logger: logger})
 		return w, func() *world.W { return w }, w.Close
 	case "memcache":
-		w = world.New(world.Opt{DSN: "memcache://"})
+		w = world.New(world.Opt{DSN: "memcache://", Logger: logger})
 		return w, func() *world.W { return w }, func() {}
 	}
 	dir, err := os.MkdirTemp(os.Getenv("VERIF_SCRATCH"), "c09-")
@@ -48,7 +53,7 @@ func c09World(backend string) (w *world.W, reopen func() *world.W, cleanup func(
 	case "fscache-mtime":
 		dsn += "&update_mtime=on"
 	}
-	w = world.New(world.Opt{DSN: dsn})
+	w = world.New(world.Opt{DSN: dsn, Logger: logger})
 	reopen = func() *world.W {
 		if backend != "fscache-reopen" {
 			return w
